@@ -139,11 +139,11 @@ def skel_doc_populateRawPublicKey : List String :=
 
 /-- pkg/vdr/sidetreelongform/sidetree/doc/doc.go:PopulateRawServices -/
 def skel_doc_PopulateRawServices : List String :=
-  ["rawServices := make([]map[string]interface{}, 0)", "for i := range services {", "  rawService := make(map[string]interface{})", "  for k := range services[i].Properties {", "    rawService[k] = v", "  }", "  rawService[jsonldID] = services[i].ID", "  rawService[jsonldType] = services[i].Type", "  serviceEndpoint, err := services[i].ServiceEndpoint.MarshalJSON()", "  if err != nil {", "    return nil, err", "  }", "  if !bytes.Equal(serviceEndpoint, []byte(\"null\")) {", "    rawService[jsonldServicePoint] = json.RawMessage(serviceEndpoint)", "  }", "  if services[i].Priority != nil {", "    rawService[jsonldPriority] = services[i].Priority", "  }", "  if len(services[i].RecipientKeys) > 0 {", "    rawService[jsonldRecipientKeys] = services[i].RecipientKeys", "  }", "  if len(services[i].RoutingKeys) > 0 {", "    rawService[jsonldRoutingKeys] = services[i].RoutingKeys", "  }", "  if len(services[i].Accept) > 0 {", "    rawService[jsonldAccept] = services[i].Accept", "  }", "  rawServices = append(rawServices, rawService)", "}", "return rawServices, nil"]
+  ["rawServices := make([]map[string]interface{}, 0)", "for i := range services {", "  rawService := make(map[string]interface{})", "  for k, v := range services[i].Properties {", "    rawService[k] = v", "  }", "  rawService[jsonldID] = services[i].ID", "  rawService[jsonldType] = services[i].Type", "  serviceEndpoint, err := services[i].ServiceEndpoint.MarshalJSON()", "  if err != nil {", "    return nil, err", "  }", "  if !bytes.Equal(serviceEndpoint, []byte(\"null\")) {", "    rawService[jsonldServicePoint] = json.RawMessage(serviceEndpoint)", "  }", "  if services[i].Priority != nil {", "    rawService[jsonldPriority] = services[i].Priority", "  }", "  if len(services[i].RecipientKeys) > 0 {", "    rawService[jsonldRecipientKeys] = services[i].RecipientKeys", "  }", "  if len(services[i].RoutingKeys) > 0 {", "    rawService[jsonldRoutingKeys] = services[i].RoutingKeys", "  }", "  if len(services[i].Accept) > 0 {", "    rawService[jsonldAccept] = services[i].Accept", "  }", "  rawServices = append(rawServices, rawService)", "}", "return rawServices, nil"]
 
 /-- pkg/vdr/sidetreelongform/sidetree/doc/doc.go:PopulateRawAlsoKnownAs -/
 def skel_doc_PopulateRawAlsoKnownAs : List String :=
-  ["values := make([]interface{}, len(alsoKnownAs))", "for i := range alsoKnownAs {", "  values[i] = v", "}", "return values"]
+  ["values := make([]interface{}, len(alsoKnownAs))", "for i, v := range alsoKnownAs {", "  values[i] = v", "}", "return values"]
 
 /-- pkg/versions/1_0/client/create.go:NewCreateRequest -/
 def lit_NewCreateRequest_model_DeltaModel : List (List (String × String)) :=
@@ -281,17 +281,81 @@ def lit_tags_JWK : List String :=
 def lit_tags_rawDoc : List String :=
   ["PublicKey []map[string]interface{} json:\"publicKey,omitempty\"", "Service []map[string]interface{} json:\"service,omitempty\"", "AlsoKnownAs []interface{} json:\"alsoKnownAs,omitempty\""]
 
+/-- pkg/versions/1_0/doccomposer/composer.go:ApplyPatches -/
+def skel_composer_ApplyPatches : List String :=
+  ["result, err := deepCopy(doc)", "if err != nil {", "  return nil, err", "}", "for _, p := range patches {", "  result, err = applyPatch(result, p)", "  if err != nil {", "    return nil, err", "  }", "}", "return result, nil"]
+
+/-- pkg/versions/1_0/doccomposer/composer.go:applyPatch -/
+def skel_composer_applyPatch : List String :=
+  ["action, err := p.GetAction()", "if err != nil {", "  return nil, err", "}", "value, err := p.GetValue()", "if err != nil {", "  return nil, err", "}", "switch action {", "case patch.Replace:", "  return applyRecover(value)", "case patch.JSONPatch:", "  return applyJSON(doc, value)", "case patch.AddPublicKeys:", "  return applyAddPublicKeys(doc, value)", "case patch.RemovePublicKeys:", "  return applyRemovePublicKeys(doc, value)", "case patch.AddServiceEndpoints:", "  return applyAddServiceEndpoints(doc, value)", "case patch.RemoveServiceEndpoints:", "  return applyRemoveServiceEndpoints(doc, value)", "case patch.AddAlsoKnownAs:", "  return applyAddAlsoKnownAs(doc, value)", "case patch.RemoveAlsoKnownAs:", "  return applyRemoveAlsoKnownAs(doc, value)", "}", "return nil, error(...)"]
+
+/-- pkg/versions/1_0/doccomposer/composer.go:applyJSON -/
+def skel_composer_applyJSON : List String :=
+  ["bytes, err := json.Marshal(entry)", "if err != nil {", "  return nil, err", "}", "jsonPatches, err := jsonpatch.DecodePatch(bytes)", "if err != nil {", "  return nil, err", "}", "docBytes, err := doc.Bytes()", "if err != nil {", "  return nil, err", "}", "for i := range jsonPatches {", "  docBytes, err = applyJSONPatchOperation(docBytes, jsonPatches[i:i+1])", "  if err != nil {", "    return nil, err", "  }", "}", "return document.FromBytes(docBytes)"]
+
+/-- pkg/versions/1_0/doccomposer/composer.go:applyJSONPatchOperation -/
+def skel_composer_applyJSONPatchOperation : List String :=
+  ["defer func() {", "  if r := recover(); r != nil {", "    result = nil", "    err = error(...)", "  }", "}()", "if targetsOwnSource(op) {", "  return nil, error(...)", "}", "return op.Apply(docBytes)"]
+
+/-- pkg/versions/1_0/doccomposer/composer.go:targetsOwnSource -/
+def skel_composer_targetsOwnSource : List String :=
+  ["for _, o := range op {", "  var kind, from, path string", "  if !stringMember(o[\"op\"], &kind) || !stringMember(o[\"from\"], &from) || !stringMember(o[\"path\"], &path) {", "    continue", "  }", "  if (kind == \"copy\" || kind == \"move\") && isBelow(path, from) {", "    return true", "  }", "}", "return false"]
+
+/-- pkg/versions/1_0/doccomposer/composer.go:stringMember -/
+def skel_composer_stringMember : List String :=
+  ["return msg != nil && json.Unmarshal(*msg, s) == nil"]
+
+/-- pkg/versions/1_0/doccomposer/composer.go:isBelow -/
+def skel_composer_isBelow : List String :=
+  ["f, p := strings.Split(from, \"/\"), strings.Split(path, \"/\")", "if len(p) <= len(f) {", "  return false", "}", "for i := 1; i < len(f); i++ {", "  a, b := pointerTokenDecoder.Replace(f[i]), pointerTokenDecoder.Replace(p[i])", "  if a == b {", "    continue", "  }", "  x, errX := strconv.Atoi(a)", "  y, errY := strconv.Atoi(b)", "  if errX != nil || errY != nil || x != y {", "    return false", "  }", "}", "return true"]
+
+/-- pkg/versions/1_0/doccomposer/composer.go:applyRecover -/
+def skel_composer_applyRecover : List String :=
+  ["docBytes, err := json.Marshal(replaceDoc)", "if err != nil {", "  return nil, err", "}", "replace, err := document.ReplaceDocumentFromBytes(docBytes)", "if err != nil {", "  return nil, err", "}", "doc := make(document.Document)", "doc[document.PublicKeyProperty] = replace[document.ReplacePublicKeyProperty]", "doc[document.ServiceProperty] = replace[document.ReplaceServiceProperty]", "return doc, nil"]
+
+/-- pkg/versions/1_0/doccomposer/composer.go:applyAddPublicKeys -/
+def skel_composer_applyAddPublicKeys : List String :=
+  ["addPublicKeys := document.ParsePublicKeys(entry)", "existingPublicKeysMap := sliceToMapPK(doc.PublicKeys())", "var newPublicKeys []document.PublicKey", "newPublicKeys = append(newPublicKeys, doc.PublicKeys()...)", "for _, key := range addPublicKeys {", "  _, ok := existingPublicKeysMap[key.ID()]", "  if ok {", "    updateKey(newPublicKeys, key)", "  } else {", "    newPublicKeys = append(newPublicKeys, key)", "  }", "}", "doc[document.PublicKeyProperty] = convertPublicKeys(newPublicKeys)", "return doc, nil"]
+
+/-- pkg/versions/1_0/doccomposer/composer.go:updateKey -/
+def skel_composer_updateKey : List String :=
+  ["for index, pk := range keys {", "  if pk.ID() == key.ID() {", "    keys[index] = key", "  }", "}"]
+
+/-- pkg/versions/1_0/doccomposer/composer.go:applyRemovePublicKeys -/
+def skel_composer_applyRemovePublicKeys : List String :=
+  ["keysToRemove := sliceToMap(document.StringArray(entry))", "var newPublicKeys []interface{}", "for _, key := range doc.PublicKeys() {", "  _, ok := keysToRemove[key.ID()]", "  if !ok {", "    newPublicKeys = append(newPublicKeys, key.JSONLdObject())", "  }", "}", "doc[document.PublicKeyProperty] = newPublicKeys", "return doc, nil"]
+
+/-- pkg/versions/1_0/doccomposer/composer.go:applyAddServiceEndpoints -/
+def skel_composer_applyAddServiceEndpoints : List String :=
+  ["didDoc := document.DidDocumentFromJSONLDObject(doc.JSONLdObject())", "addServices := document.ParseServices(entry)", "existingServicesMap := sliceToMapServices(didDoc.Services())", "var newServices []document.Service", "newServices = append(newServices, didDoc.Services()...)", "for _, service := range addServices {", "  _, ok := existingServicesMap[service.ID()]", "  if ok {", "    updateService(newServices, service)", "  } else {", "    newServices = append(newServices, service)", "  }", "}", "doc[document.ServiceProperty] = convertServices(newServices)", "return doc, nil"]
+
+/-- pkg/versions/1_0/doccomposer/composer.go:applyRemoveServiceEndpoints -/
+def skel_composer_applyRemoveServiceEndpoints : List String :=
+  ["didDoc := document.DidDocumentFromJSONLDObject(doc.JSONLdObject())", "servicesToRemove := sliceToMap(document.StringArray(entry))", "var newServices []interface{}", "for _, service := range didDoc.Services() {", "  _, ok := servicesToRemove[service.ID()]", "  if !ok {", "    newServices = append(newServices, service.JSONLdObject())", "  }", "}", "doc[document.ServiceProperty] = newServices", "return doc, nil"]
+
+/-- pkg/versions/1_0/doccomposer/composer.go:applyAddAlsoKnownAs -/
+def skel_composer_applyAddAlsoKnownAs : List String :=
+  ["didDoc := document.DidDocumentFromJSONLDObject(doc.JSONLdObject())", "addURIs := document.StringArray(entry)", "existingURIs := sliceToMap(didDoc.AlsoKnownAs())", "var newURIs []string", "newURIs = append(newURIs, didDoc.AlsoKnownAs()...)", "for _, uri := range addURIs {", "  _, ok := existingURIs[uri]", "  if !ok {", "    newURIs = append(newURIs, uri)", "  }", "}", "doc[document.AlsoKnownAs] = interfaceArray(newURIs)", "return doc, nil"]
+
+/-- pkg/versions/1_0/doccomposer/composer.go:applyRemoveAlsoKnownAs -/
+def skel_composer_applyRemoveAlsoKnownAs : List String :=
+  ["didDoc := document.DidDocumentFromJSONLDObject(doc.JSONLdObject())", "urisToRemove := sliceToMap(document.StringArray(entry))", "var newURIs []interface{}", "for _, uri := range didDoc.AlsoKnownAs() {", "  _, ok := urisToRemove[uri]", "  if !ok {", "    newURIs = append(newURIs, uri)", "  }", "}", "doc[document.AlsoKnownAs] = newURIs", "return doc, nil"]
+
+/-- pkg/versions/1_0/doccomposer/composer.go:pointerTokenDecoder -/
+def skel_composer_pointerTokenDecoder : List String :=
+  ["strings.NewReplacer(\"~1\", \"/\", \"~0\", \"~\")"]
+
 /-- pkg/versions/1_0/doctransformer/didtransformer/transformer.go:TransformDocument -/
 def skel_TransformDocument : List String :=
-  ["docMetadata, err := metadata.New( metadata.WithIncludeUnpublishedOperations(t.includeUnpublishedOperations), metadata.WithIncludePublishedOperations(t.includePublishedOperations)). CreateDocumentMetadata(rm, info)", "if err != nil {", "  return nil, err", "}", "id, ok := info[document.IDProperty]", "if !ok {", "  return nil, error(...)", "}", "internal := document.DidDocumentFromJSONLDObject(rm.Doc.JSONLdObject())", "external := document.DidDocumentFromJSONLDObject(make(document.DIDDocument))", "ctx := []interface{}{...}", "for _ := range t.methodCtx {", "  ctx = append(ctx, c)", "}", "if t.includeBase {", "  ctx = append(ctx, getBase(id.(string)))", "}", "alsoKnownAs := internal.AlsoKnownAs()", "if len(alsoKnownAs) > 0 {", "  external[document.AlsoKnownAs] = alsoKnownAs", "}", "external[document.ContextProperty] = ctx", "external[document.IDProperty] = id", "result := &document.ResolutionResult{...}", "err = t.processKeys(internal, result)", "if err != nil {", "  return nil, error(...)", "}", "t.processServices(internal, result)", "return result, nil"]
+  ["docMetadata, err := metadata.New( metadata.WithIncludeUnpublishedOperations(t.includeUnpublishedOperations), metadata.WithIncludePublishedOperations(t.includePublishedOperations)). CreateDocumentMetadata(rm, info)", "if err != nil {", "  return nil, err", "}", "id, ok := info[document.IDProperty]", "if !ok {", "  return nil, error(...)", "}", "internal := document.DidDocumentFromJSONLDObject(rm.Doc.JSONLdObject())", "external := document.DidDocumentFromJSONLDObject(make(document.DIDDocument))", "ctx := []interface{}{...}", "for _, c := range t.methodCtx {", "  ctx = append(ctx, c)", "}", "if t.includeBase {", "  ctx = append(ctx, getBase(id.(string)))", "}", "alsoKnownAs := internal.AlsoKnownAs()", "if len(alsoKnownAs) > 0 {", "  external[document.AlsoKnownAs] = alsoKnownAs", "}", "external[document.ContextProperty] = ctx", "external[document.IDProperty] = id", "result := &document.ResolutionResult{...}", "err = t.processKeys(internal, result)", "if err != nil {", "  return nil, error(...)", "}", "t.processServices(internal, result)", "return result, nil"]
 
 /-- pkg/versions/1_0/doctransformer/didtransformer/transformer.go:processKeys -/
 def skel_processKeys : List String :=
-  ["purposes := map[string][]interface{}{...}", "did := resolutionResult.Document.ID()", "var publicKeys []document.PublicKey", "var keyContexts []string", "for _ := range internal.PublicKeys() {", "  id := t.getObjectID(did, pk.ID())", "  externalPK := make(document.PublicKey)", "  externalPK[document.IDProperty] = id", "  externalPK[document.TypeProperty] = pk.Type()", "  externalPK[document.ControllerProperty] = did", "  if pkJwk := pk.PublicKeyJwk(); pkJwk != nil {", "    if pk.Type() == ed25519VerificationKey2018 {", "      ed25519PubKey, err := getED2519PublicKey(pkJwk)", "      if err != nil {", "        return err", "      }", "      externalPK[document.PublicKeyBase58Property] = base58.Encode(ed25519PubKey)", "    } else {", "      if pk.Type() == ed25519VerificationKey2020 { ed25519PubKey, err := getED2519PublicKey(pkJwk) if err != nil { return err } multibaseEncode, err := multibase.Encode(multibase.Base58BTC, ed25519PubKey) if err != nil { return err } externalPK[document.PublicKeyMultibaseProperty] = multibaseEncode } else { externalPK[document.PublicKeyJwkProperty] = pkJwk }", "    }", "  } else {", "    if pkb58 := pk.PublicKeyBase58(); pkb58 != \"\" { externalPK[document.PublicKeyBase58Property] = pkb58 } else if pkMultibase := pk.PublicKeyMultibase(); pkMultibase != \"\" { externalPK[document.PublicKeyMultibaseProperty] = pkMultibase } else { externalPK[document.PublicKeyJwkProperty] = nil }", "  }", "  keyContext, ok := t.keyCtx[pk.Type()]", "  if !ok {", "    return error(...)", "  }", "  if !contains(keyContexts, keyContext) {", "    keyContexts = append(keyContexts, keyContext)", "  }", "  publicKeys = append(publicKeys, externalPK)", "  for _ := range pk.Purpose() {", "    switch p {", "    case document.KeyPurposeAuthentication:", "      purposes[document.AuthenticationProperty] = append(purposes[document.AuthenticationProperty], id)", "    case document.KeyPurposeAssertionMethod:", "      purposes[document.AssertionMethodProperty] = append(purposes[document.AssertionMethodProperty], id)", "    case document.KeyPurposeKeyAgreement:", "      purposes[document.KeyAgreementProperty] = append(purposes[document.KeyAgreementProperty], id)", "    case document.KeyPurposeCapabilityDelegation:", "      purposes[document.DelegationKeyProperty] = append(purposes[document.DelegationKeyProperty], id)", "    case document.KeyPurposeCapabilityInvocation:", "      purposes[document.InvocationKeyProperty] = append(purposes[document.InvocationKeyProperty], id)", "    }", "  }", "}", "if len(publicKeys) > 0 {", "  resolutionResult.Document[document.VerificationMethodProperty] = publicKeys", "  ctx := append(resolutionResult.Document.Context(), interfaceArray(keyContexts)...)", "  resolutionResult.Document[document.ContextProperty] = ctx", "}", "for key := range purposes {", "  if len(value) > 0 {", "    resolutionResult.Document[key] = value", "  }", "}", "return nil"]
+  ["purposes := map[string][]interface{}{...}", "did := resolutionResult.Document.ID()", "var publicKeys []document.PublicKey", "var keyContexts []string", "for _, pk := range internal.PublicKeys() {", "  id := t.getObjectID(did, pk.ID())", "  externalPK := make(document.PublicKey)", "  externalPK[document.IDProperty] = id", "  externalPK[document.TypeProperty] = pk.Type()", "  externalPK[document.ControllerProperty] = did", "  if pkJwk := pk.PublicKeyJwk(); pkJwk != nil {", "    if pk.Type() == ed25519VerificationKey2018 {", "      ed25519PubKey, err := getED2519PublicKey(pkJwk)", "      if err != nil {", "        return err", "      }", "      externalPK[document.PublicKeyBase58Property] = base58.Encode(ed25519PubKey)", "    } else {", "      if pk.Type() == ed25519VerificationKey2020 { ed25519PubKey, err := getED2519PublicKey(pkJwk) if err != nil { return err } multibaseEncode, err := multibase.Encode(multibase.Base58BTC, ed25519PubKey) if err != nil { return err } externalPK[document.PublicKeyMultibaseProperty] = multibaseEncode } else { externalPK[document.PublicKeyJwkProperty] = pkJwk }", "    }", "  } else {", "    if pkb58 := pk.PublicKeyBase58(); pkb58 != \"\" { externalPK[document.PublicKeyBase58Property] = pkb58 } else if pkMultibase := pk.PublicKeyMultibase(); pkMultibase != \"\" { externalPK[document.PublicKeyMultibaseProperty] = pkMultibase } else { externalPK[document.PublicKeyJwkProperty] = nil }", "  }", "  keyContext, ok := t.keyCtx[pk.Type()]", "  if !ok {", "    return error(...)", "  }", "  if !contains(keyContexts, keyContext) {", "    keyContexts = append(keyContexts, keyContext)", "  }", "  publicKeys = append(publicKeys, externalPK)", "  for _, p := range pk.Purpose() {", "    switch p {", "    case document.KeyPurposeAuthentication:", "      purposes[document.AuthenticationProperty] = append(purposes[document.AuthenticationProperty], id)", "    case document.KeyPurposeAssertionMethod:", "      purposes[document.AssertionMethodProperty] = append(purposes[document.AssertionMethodProperty], id)", "    case document.KeyPurposeKeyAgreement:", "      purposes[document.KeyAgreementProperty] = append(purposes[document.KeyAgreementProperty], id)", "    case document.KeyPurposeCapabilityDelegation:", "      purposes[document.DelegationKeyProperty] = append(purposes[document.DelegationKeyProperty], id)", "    case document.KeyPurposeCapabilityInvocation:", "      purposes[document.InvocationKeyProperty] = append(purposes[document.InvocationKeyProperty], id)", "    }", "  }", "}", "if len(publicKeys) > 0 {", "  resolutionResult.Document[document.VerificationMethodProperty] = publicKeys", "  ctx := append(resolutionResult.Document.Context(), interfaceArray(keyContexts)...)", "  resolutionResult.Document[document.ContextProperty] = ctx", "}", "for key, value := range purposes {", "  if len(value) > 0 {", "    resolutionResult.Document[key] = value", "  }", "}", "return nil"]
 
 /-- pkg/versions/1_0/doctransformer/didtransformer/transformer.go:processServices -/
 def skel_processServices : List String :=
-  ["var services []document.Service", "did := resolutionResult.Document.ID()", "for _ := range internal.Services() {", "  externalService := make(document.Service)", "  externalService[document.IDProperty] = t.getObjectID(did, sv.ID())", "  externalService[document.TypeProperty] = sv.Type()", "  externalService[document.ServiceEndpointProperty] = sv.ServiceEndpoint()", "  for key := range sv {", "    _, ok := externalService[key]", "    if !ok {", "      externalService[key] = value", "    }", "  }", "  services = append(services, externalService)", "}", "if len(services) > 0 {", "  resolutionResult.Document[document.ServiceProperty] = services", "}"]
+  ["var services []document.Service", "did := resolutionResult.Document.ID()", "for _, sv := range internal.Services() {", "  externalService := make(document.Service)", "  externalService[document.IDProperty] = t.getObjectID(did, sv.ID())", "  externalService[document.TypeProperty] = sv.Type()", "  externalService[document.ServiceEndpointProperty] = sv.ServiceEndpoint()", "  for key, value := range sv {", "    _, ok := externalService[key]", "    if !ok {", "      externalService[key] = value", "    }", "  }", "  services = append(services, externalService)", "}", "if len(services) > 0 {", "  resolutionResult.Document[document.ServiceProperty] = services", "}"]
 
 /-- pkg/versions/1_0/doctransformer/didtransformer/transformer.go:getObjectID -/
 def skel_getObjectID : List String :=
@@ -307,7 +371,7 @@ def skel_getED2519PublicKey : List String :=
 
 /-- pkg/versions/1_0/doctransformer/didtransformer/transformer.go:New -/
 def skel_New : List String :=
-  ["transformer := &Transformer{...}", "for _ := range opts {", "  opt(transformer)", "}", "if len(transformer.keyCtx) == 0 {", "  transformer.keyCtx = defaultKeyContextMap", "}", "return transformer"]
+  ["transformer := &Transformer{...}", "for _, opt := range opts {", "  opt(transformer)", "}", "if len(transformer.keyCtx) == 0 {", "  transformer.keyCtx = defaultKeyContextMap", "}", "return transformer"]
 
 /-- pkg/versions/1_0/doctransformer/metadata/metadata.go:CreateDocumentMetadata -/
 def skel_CreateDocumentMetadata : List String :=
@@ -315,11 +379,11 @@ def skel_CreateDocumentMetadata : List String :=
 
 /-- pkg/versions/1_0/doctransformer/metadata/metadata.go:getPublishedOperations -/
 def skel_getPublishedOperations : List String :=
-  ["sortOperations(ops)", "uniqueOps := make(map[string]bool)", "var publishedOps []*PublishedOperation", "for _ := range ops {", "  _, ok := uniqueOps[op.CanonicalReference]", "  if !ok {", "    publishedOps = append(publishedOps, &PublishedOperation{ Type: op.Type, OperationRequest: op.OperationRequest, TransactionTime: op.TransactionTime, TransactionNumber: op.TransactionNumber, ProtocolVersion: op.ProtocolVersion, CanonicalReference: op.CanonicalReference, EquivalentReferences: op.EquivalentReferences, AnchorOrigin: op.AnchorOrigin, })", "    uniqueOps[op.CanonicalReference] = true", "  }", "}", "return publishedOps"]
+  ["sortOperations(ops)", "uniqueOps := make(map[string]bool)", "var publishedOps []*PublishedOperation", "for _, op := range ops {", "  _, ok := uniqueOps[op.CanonicalReference]", "  if !ok {", "    publishedOps = append(publishedOps, &PublishedOperation{ Type: op.Type, OperationRequest: op.OperationRequest, TransactionTime: op.TransactionTime, TransactionNumber: op.TransactionNumber, ProtocolVersion: op.ProtocolVersion, CanonicalReference: op.CanonicalReference, EquivalentReferences: op.EquivalentReferences, AnchorOrigin: op.AnchorOrigin, })", "    uniqueOps[op.CanonicalReference] = true", "  }", "}", "return publishedOps"]
 
 /-- pkg/versions/1_0/doctransformer/metadata/metadata.go:getUnpublishedOperations -/
 def skel_getUnpublishedOperations : List String :=
-  ["sortOperations(ops)", "unpublishedOps := make([]*UnpublishedOperation, len(ops))", "for i := range ops {", "  unpublishedOps[i] = &UnpublishedOperation{...}", "}", "return unpublishedOps"]
+  ["sortOperations(ops)", "unpublishedOps := make([]*UnpublishedOperation, len(ops))", "for i, op := range ops {", "  unpublishedOps[i] = &UnpublishedOperation{...}", "}", "return unpublishedOps"]
 
 /-- pkg/versions/1_0/doctransformer/metadata/metadata.go:sortOperations -/
 def skel_sortOperations : List String :=
@@ -359,7 +423,7 @@ def skel_dochandler_getCreateResponse : List String :=
 
 /-- pkg/vdr/sidetreelongform/dochandler/dochandler.go:createProtocolClient -/
 def skel_dochandler_createProtocolClient : List String :=
-  ["registry := clientregistry.New()", "var clientVersions []protocol.Version", "config := &common.ProtocolConfig{...}", "for _ := range versions {", "  cv, err := registry.CreateClientVersion(version, config)", "  if err != nil {", "    return nil, error(...)", "  }", "  clientVersions = append(clientVersions, cv)", "}", "verProvider, err := verprovider.New(clientVersions, verprovider.WithCurrentProtocolVersion(currentVersion))", "if err != nil {", "  return nil, error(...)", "}", "nsProvider := nsprovider.New()", "nsProvider.Add(namespace, verProvider)", "return nsProvider.ForNamespace(namespace)"]
+  ["registry := clientregistry.New()", "var clientVersions []protocol.Version", "config := &common.ProtocolConfig{...}", "for _, version := range versions {", "  cv, err := registry.CreateClientVersion(version, config)", "  if err != nil {", "    return nil, error(...)", "  }", "  clientVersions = append(clientVersions, cv)", "}", "verProvider, err := verprovider.New(clientVersions, verprovider.WithCurrentProtocolVersion(currentVersion))", "if err != nil {", "  return nil, error(...)", "}", "nsProvider := nsprovider.New()", "nsProvider.Add(namespace, verProvider)", "return nsProvider.ForNamespace(namespace)"]
 
 /-- pkg/docutil/docutil.go:GetTransformationInfoForUnpublished -/
 def skel_docutil_GetTransformationInfoForUnpublished : List String :=
@@ -375,7 +439,7 @@ def skel_client_Create : List String :=
 
 /-- pkg/vdr/sidetreelongform/vdr.go:Create -/
 def skel_vdr_Create : List String :=
-  ["didMethodOpts := &vdrapi.DIDMethodOpts{...}", "for _ := range opts {", "  opt(didMethodOpts)", "}", "createOpt := make([]create.Option, 0)", "if didMethodOpts.Values[UpdatePublicKeyOpt] == nil {", "  updateKey, _, err := ed25519.GenerateKey(rand.Reader)", "  if err != nil {", "    return nil, error(...)", "  }", "  didMethodOpts.Values[UpdatePublicKeyOpt] = updateKey", "}", "updatePublicKey, ok := didMethodOpts.Values[UpdatePublicKeyOpt].(crypto.PublicKey)", "if !ok {", "  return nil, error(...)", "}", "if didMethodOpts.Values[RecoveryPublicKeyOpt] == nil {", "  recoveryKey, _, err := ed25519.GenerateKey(rand.Reader)", "  if err != nil {", "    return nil, error(...)", "  }", "  didMethodOpts.Values[RecoveryPublicKeyOpt] = recoveryKey", "}", "recoveryPublicKey, ok := didMethodOpts.Values[RecoveryPublicKeyOpt].(crypto.PublicKey)", "if !ok {", "  return nil, error(...)", "}", "for i := range did.AlsoKnownAs {", "  createOpt = append(createOpt, create.WithAlsoKnownAs(did.AlsoKnownAs[i]))", "}", "for i := range did.Service {", "  createOpt = append(createOpt, create.WithService(&did.Service[i]))", "}", "pks, err := getSidetreePublicKeys(did)", "if err != nil {", "  return nil, err", "}", "keyIDs := make([]string, 0, len(pks))", "for k := range pks {", "  keyIDs = append(keyIDs, k)", "}", "sort.Strings(keyIDs)", "for _ := range keyIDs {", "  createOpt = append(createOpt, create.WithPublicKey(pks[k].publicKey))", "}", "createOpt = append(createOpt, create.WithMultiHashAlgorithm(sha2_256), create.WithUpdatePublicKey(updatePublicKey), create.WithRecoveryPublicKey(recoveryPublicKey))", "createdDID, err := v.sidetreeClient.CreateDID(createOpt...)", "if err != nil {", "  return nil, err", "}", "return createdDID, nil"]
+  ["didMethodOpts := &vdrapi.DIDMethodOpts{...}", "for _, opt := range opts {", "  opt(didMethodOpts)", "}", "createOpt := make([]create.Option, 0)", "if didMethodOpts.Values[UpdatePublicKeyOpt] == nil {", "  updateKey, _, err := ed25519.GenerateKey(rand.Reader)", "  if err != nil {", "    return nil, error(...)", "  }", "  didMethodOpts.Values[UpdatePublicKeyOpt] = updateKey", "}", "updatePublicKey, ok := didMethodOpts.Values[UpdatePublicKeyOpt].(crypto.PublicKey)", "if !ok {", "  return nil, error(...)", "}", "if didMethodOpts.Values[RecoveryPublicKeyOpt] == nil {", "  recoveryKey, _, err := ed25519.GenerateKey(rand.Reader)", "  if err != nil {", "    return nil, error(...)", "  }", "  didMethodOpts.Values[RecoveryPublicKeyOpt] = recoveryKey", "}", "recoveryPublicKey, ok := didMethodOpts.Values[RecoveryPublicKeyOpt].(crypto.PublicKey)", "if !ok {", "  return nil, error(...)", "}", "for i := range did.AlsoKnownAs {", "  createOpt = append(createOpt, create.WithAlsoKnownAs(did.AlsoKnownAs[i]))", "}", "for i := range did.Service {", "  createOpt = append(createOpt, create.WithService(&did.Service[i]))", "}", "pks, err := getSidetreePublicKeys(did)", "if err != nil {", "  return nil, err", "}", "keyIDs := make([]string, 0, len(pks))", "for k := range pks {", "  keyIDs = append(keyIDs, k)", "}", "sort.Strings(keyIDs)", "for _, k := range keyIDs {", "  createOpt = append(createOpt, create.WithPublicKey(pks[k].publicKey))", "}", "createOpt = append(createOpt, create.WithMultiHashAlgorithm(sha2_256), create.WithUpdatePublicKey(updatePublicKey), create.WithRecoveryPublicKey(recoveryPublicKey))", "createdDID, err := v.sidetreeClient.CreateDID(createOpt...)", "if err != nil {", "  return nil, err", "}", "return createdDID, nil"]
 
 /-- pkg/vdr/sidetreelongform/vdr.go:Read -/
 def skel_vdr_Read : List String :=
@@ -383,7 +447,7 @@ def skel_vdr_Read : List String :=
 
 /-- pkg/vdr/sidetreelongform/vdr.go:getSidetreePublicKeys -/
 def skel_vdr_getSidetreePublicKeys : List String :=
-  ["pksMap := make(map[string]*pk)", "ver := make([]docdid.Verification, 0)", "ver = append(ver, didDoc.Authentication...)", "ver = append(ver, didDoc.AssertionMethod...)", "ver = append(ver, didDoc.CapabilityDelegation...)", "ver = append(ver, didDoc.CapabilityInvocation...)", "ver = append(ver, didDoc.KeyAgreement...)", "for _ := range ver {", "  var purpose string", "  switch v.Relationship {", "  case docdid.Authentication:", "    purpose = doc.KeyPurposeAuthentication", "  case docdid.AssertionMethod:", "    purpose = doc.KeyPurposeAssertionMethod", "  case docdid.CapabilityDelegation:", "    purpose = doc.KeyPurposeCapabilityDelegation", "  case docdid.CapabilityInvocation:", "    purpose = doc.KeyPurposeCapabilityInvocation", "  case docdid.KeyAgreement:", "    purpose = doc.KeyPurposeKeyAgreement", "  default:", "    return nil, error(...)", "  }", "  s := strings.Split(v.VerificationMethod.ID, \"#\")", "  id := s[0]", "  if len(s) > 1 {", "    id = s[1]", "  }", "  value, ok := pksMap[id]", "  if ok {", "    value.publicKey.Purposes = append(value.publicKey.Purposes, purpose)", "    continue", "  }", "  switch  {", "  case v.VerificationMethod.JSONWebKey() != nil:", "    pksMap[id] = &pk{...}", "  case v.VerificationMethod.Value != nil:", "    pksMap[id] = &pk{...}", "  default:", "    return nil, error(...)", "  }", "}", "return pksMap, nil"]
+  ["pksMap := make(map[string]*pk)", "ver := make([]docdid.Verification, 0)", "ver = append(ver, didDoc.Authentication...)", "ver = append(ver, didDoc.AssertionMethod...)", "ver = append(ver, didDoc.CapabilityDelegation...)", "ver = append(ver, didDoc.CapabilityInvocation...)", "ver = append(ver, didDoc.KeyAgreement...)", "for _, v := range ver {", "  var purpose string", "  switch v.Relationship {", "  case docdid.Authentication:", "    purpose = doc.KeyPurposeAuthentication", "  case docdid.AssertionMethod:", "    purpose = doc.KeyPurposeAssertionMethod", "  case docdid.CapabilityDelegation:", "    purpose = doc.KeyPurposeCapabilityDelegation", "  case docdid.CapabilityInvocation:", "    purpose = doc.KeyPurposeCapabilityInvocation", "  case docdid.KeyAgreement:", "    purpose = doc.KeyPurposeKeyAgreement", "  default:", "    return nil, error(...)", "  }", "  s := strings.Split(v.VerificationMethod.ID, \"#\")", "  id := s[0]", "  if len(s) > 1 {", "    id = s[1]", "  }", "  value, ok := pksMap[id]", "  if ok {", "    value.publicKey.Purposes = append(value.publicKey.Purposes, purpose)", "    continue", "  }", "  switch  {", "  case v.VerificationMethod.JSONWebKey() != nil:", "    pksMap[id] = &pk{...}", "  case v.VerificationMethod.Value != nil:", "    pksMap[id] = &pk{...}", "  default:", "    return nil, error(...)", "  }", "}", "return pksMap, nil"]
 
 /-- pkg/vdr/sidetreelongform/vdr.go:sendRequest -/
 def skel_vdr_sendRequest : List String :=
@@ -439,7 +503,7 @@ def skel_ParseCreateOperation : List String :=
 
 /-- pkg/versions/1_0/operationparser/create.go:ValidateDelta -/
 def skel_ValidateDelta : List String :=
-  ["if delta == nil {", "  return error(...)", "}", "if len(delta.Patches) == 0 {", "  return error(...)", "}", "for _ := range delta.Patches {", "  action, err := ptch.GetAction()", "  if err != nil {", "    return err", "  }", "  if !p.isPatchEnabled(action) {", "    return error(...)", "  }", "  if err := patchvalidator.Validate(ptch); err != nil {", "    return err", "  }", "}", "if err := p.validateMultihash(delta.UpdateCommitment, \"update commitment\"); err != nil {", "  return err", "}", "return p.validateDeltaSize(delta)"]
+  ["if delta == nil {", "  return error(...)", "}", "if len(delta.Patches) == 0 {", "  return error(...)", "}", "for _, ptch := range delta.Patches {", "  action, err := ptch.GetAction()", "  if err != nil {", "    return err", "  }", "  if !p.isPatchEnabled(action) {", "    return error(...)", "  }", "  if err := patchvalidator.Validate(ptch); err != nil {", "    return err", "  }", "}", "if err := p.validateMultihash(delta.UpdateCommitment, \"update commitment\"); err != nil {", "  return err", "}", "return p.validateDeltaSize(delta)"]
 
 /-- pkg/versions/1_0/operationparser/create.go:validateMultihash -/
 def skel_validateMultihash : List String :=
@@ -551,7 +615,7 @@ def lit_ParseDeactivateOperation : List (List (String × String)) :=
 
 /-- pkg/jwsutil/jws.go:ParseJWS -/
 def skel_ParseJWS : List String :=
-  ["pOpts := &jwsParseOpts{...}", "for _ := range opts {", "  opt(pOpts)", "}", "if strings.HasPrefix(jwsStr, \"{\") {", "  return nil, error(...)", "}", "return parseCompacted(jwsStr, pOpts)"]
+  ["pOpts := &jwsParseOpts{...}", "for _, opt := range opts {", "  opt(pOpts)", "}", "if strings.HasPrefix(jwsStr, \"{\") {", "  return nil, error(...)", "}", "return parseCompacted(jwsStr, pOpts)"]
 
 /-- pkg/jwsutil/jws.go:VerifyJWS -/
 def skel_VerifyJWS : List String :=
@@ -663,7 +727,7 @@ def skel_jws_sign : List String :=
 
 /-- pkg/jwsutil/jws.go:mergeHeaders -/
 def skel_jws_mergeHeaders : List String :=
-  ["h := make(jws.Headers, len(h1)+len(h2))", "for k := range h2 {", "  h[k] = v", "}", "for k := range h1 {", "  h[k] = v", "}", "return h"]
+  ["h := make(jws.Headers, len(h1)+len(h2))", "for k, v := range h2 {", "  h[k] = v", "}", "for k, v := range h1 {", "  h[k] = v", "}", "return h"]
 
 /-- pkg/jws/jwk.go:Validate -/
 def skel_jwk_Validate : List String :=
